@@ -135,7 +135,7 @@ Section Utf8.
     rewrite !Nat2Z.id, firstn_off_of, skipn_off_of.
     assert (Hpre : valid (chars (firstn a l))) by (apply valid_chars, Forall_firstn', Hl).
     assert (Hl2 : Forall scalar (skipn b l)) by (apply Forall_skipn', Hl).
-    destruct (Z.of_nat (off_of l b) <=? 0)%Z.
+    destruct (Z.of_nat (off_of l b) <=? Z.of_nat (off_of l a))%Z.
     - unfold step_char. destruct (skipn b l) as [|c0 l'] eqn:El.
       + cbn. discriminate.
       + inversion Hl2 as [|? ? Hc0 Hl']; subst. rewrite chars_cons.
